@@ -188,6 +188,17 @@ func getName(nodeSet NodeSet, ok bool, nameType nameType) (Result, error) {
 		return String(fmt.Sprintf("{%s}%s", n.Space(), n.Local())), nil
 	}
 
+	// Processing instructions and namespace nodes have an expanded-name with
+	// a local part (the target, the prefix) and a null namespace URI.
+	if nameType != namespaceOnly {
+		switch n := firstNode.Node().(type) {
+		case node.ProcInst:
+			return String(n.Target()), nil
+		case node.Namespace:
+			return String(n.Prefix()), nil
+		}
+	}
+
 	return String(""), nil
 }
 
